@@ -28,7 +28,7 @@ RECURSIVE AdjF(_, _), AdjP(_, _)
 AdjF(c, d) == IF IsBday(c, d) THEN d ELSE AdjF(c, d + 1)
 AdjP(c, d) == IF IsBday(c, d) THEN d ELSE AdjP(c, d - 1)
 \* month of an ordinal from the day of the year (same function as Civil!MonthOf, without the search;
-\* MC_Calendar checks MonthNo = MonthOf on every day it uses, the thorough run over 1999-2002)
+\* MC_Calendar and Trace_Calendar check MonthNo = MonthOf on the days they are asked about)
 MonthNo(o) == LET y == YearOf(o)  k == o - DaysBeforeYear(y)  L == IF IsLeap(y) THEN 1 ELSE 0 IN
               IF k <= 31 THEN 1 ELSE IF k <= 59 + L THEN 2 ELSE IF k <= 90 + L THEN 3 ELSE IF k <= 120 + L THEN 4
               ELSE IF k <= 151 + L THEN 5 ELSE IF k <= 181 + L THEN 6 ELSE IF k <= 212 + L THEN 7 ELSE IF k <= 243 + L THEN 8
